@@ -115,6 +115,19 @@ def arith_operands(P, chk, name, trait, commutative):
             return "?"
         s0, s1 = side(a0), side(a1)
         okord = (s0, s1) == ("self", "rhs") or (commutative and (s0, s1) == ("rhs", "self"))
+        if not okord and commutative and (s0, s1) == ("?", "?"):
+            # `(Number(x), Commodities(y)) | (Commodities(y), Number(x)) => y * x`: each operand is the payload of one
+            # variant, taken from whichever side holds it; the two variants differ, so the operands come from the two sides
+            def variants(o):
+                rs = prov(b, o)
+                if rs and all(r.kind == "param" and r.name.rsplit(":", 1)[-1] in ("self", "rhs") and r.fields[:1] and r.fields[0].startswith("#") for r in rs):
+                    return set(r.fields[0] for r in rs), set(r.name.rsplit(":", 1)[-1] for r in rs)
+                return None, None
+            v0, p0 = variants(a0)
+            v1, p1 = variants(a1)
+            if v0 and v1 and len(v0) == 1 and len(v1) == 1 and v0 != v1 and p0 == p1 == {"self", "rhs"}:
+                okord = True
+                s0, s1 = "self|rhs", "rhs|self"
         chk.require(okop and okord, R_ARITH, "Evaluated::%s|%s(%s,%s)" % (name, cd.rsplit("::", 1)[-1], s0, s1), b.loc(bb),
                     "accepting arm of %s computes %s(%s, %s), expected %s(self, rhs)" % (name, cd, s0, s1, trait),
                     "%s(%s, %s)" % (trait, s0, s1))
@@ -392,7 +405,9 @@ def cardinality(P, chk):
                 # `match (it.next(), it.next())`: Ok only where the first next() was None (no commodity) or the second one was
                 # (exactly one commodity)
                 nexts = [nb for nb, t in b.calls() if (callee_def(t) or "") == "std::iter::Iterator::next" and t["args"] and
-                         all(q.is_param(r, "value", ("values",)) for cn, r in q.chains(b, t["args"][0])) and q.chains(b, t["args"][0])]
+                         all(q.is_param(r, "value") and tuple(r.fields) in ((), ("values",)) and
+                             all(n.rsplit("::", 1)[-1] in ("iter", "into_iter", "values") for n in cn)
+                             for cn, r in q.chains(b, t["args"][0])) and q.chains(b, t["args"][0])]
                 if nexts and not any(nb in blks for blks in b.loops().values() for nb in nexts):
                     first = [n for n in nexts if all(n == m or b.must_pass_block(m, n) for m in nexts)]
                     for a in mir.guards_at(b, bb):
